@@ -154,6 +154,117 @@ def scripted_chooser(script, fallback=0):
     return ch
 
 
+def cut_chooser(first, k):
+    """run worker `first` for k choices, then the other worker(s) to completion, then the rest"""
+    count = [0]
+
+    def ch(runnable, pending, n):
+        if count[0] < k and first in runnable:
+            count[0] += 1
+            return first
+        others = [r for r in runnable if r != first]
+        return others[0] if others else runnable[0]
+    return ch
+
+
+_WORKER = {}
+
+
+def _systematic_unit(args):
+    """all single-cut schedules of one (start state, ordered pair): worker-process entry"""
+    prop_id, group, sn, i, j, mp_mode, max_cut = args
+    contents = oracle.Contents()
+    cfg = dict(depth=3, width=2, store_alg="SHA-256")
+    menu = Menu(contents)
+    starts, calls_all = (menu.object_starts(), menu.object_calls()) if group == 0 else (menu.metadata_starts(), menu.metadata_calls())
+    start, calls = starts[sn], [calls_all[i], calls_all[j]]
+    model = lean.Model(contents, **cfg)
+    out = []
+    n_exec = 0
+    try:
+        for c in start + calls:
+            for s_ in c.hash_strings(seq.DEFAULT_NS):
+                model.need_str(s_)
+            for t in c.toks():
+                model.need_tok(t)
+        seq_outs = sequential_outcomes(model, start, calls)
+        for first in (0, 1):
+            prev = None
+            for k in range(0, max_cut):
+                ex = execute(contents, cfg, start, calls, cut_chooser(first, k), mp_mode=mp_mode)
+                n_exec += 1
+                if ex["schedule"] == prev:
+                    break
+                prev = ex["schedule"]
+                problems, dis = judge(prop_id, sn, start, calls, ex, seq_outs)
+                if problems or dis:
+                    out.append({"sn": sn, "start": seq.history_json(start), "calls": seq.history_json(calls),
+                                "contents": contents.to_json(), "ex": {k_: ex[k_] for k_ in ("schedule", "results", "abs", "locks", "trace", "outcome")},
+                                "problems": {k_: [str(v[0])[:1200], str(v[1])[:1200]] for k_, v in problems.items()},
+                                "dis": {k_: [str(v[0])[:1200], str(v[1])[:1200]] for k_, v in dis.items()},
+                                "tags": diagnose(calls, ex["results"], ex["abs"]) if any("sequential" in p_ for p_ in problems) else [],
+                                "short": short(calls), "rc": result_classes(ex["results"])})
+    finally:
+        model.close()
+    return n_exec, out
+
+
+def systematic(prop_id, tier, rng, mp_mode, groups_idx, report, seen, stats):
+    """one thread runs k steps, then the other runs to completion, for every k and both orders"""
+    import multiprocessing as mp
+    combos = []
+    contents = oracle.Contents()
+    menu = Menu(contents)
+    for g in groups_idx:
+        starts, calls = (menu.object_starts(), menu.object_calls()) if g == 0 else (menu.metadata_starts(), menu.metadata_calls())
+        for sn in starts:
+            for i in range(len(calls)):
+                for j in range(i, len(calls)):
+                    combos.append((prop_id, g, sn, i, j, mp_mode, 60))
+    rng.shuffle(combos)
+    if tier == "quick":
+        combos = combos[:70]
+    with mp.get_context("fork").Pool(min(12, os.cpu_count() or 4)) as pool:
+        results = pool.map(_systematic_unit, combos, chunksize=1)
+    cfg = dict(depth=3, width=2, store_alg="SHA-256")
+    for n_exec, outs in results:
+        stats["execs"] += n_exec
+        for o_ in outs:
+            payload = {"property": prop_id, "kind": "schedule", "config": cfg, "contents": o_["contents"],
+                       "start_state": o_["sn"], "start": o_["start"], "calls": o_["calls"], "schedule": o_["ex"]["schedule"],
+                       "results": o_["ex"]["results"], "final_abstract_state": o_["ex"]["abs"], "locks": o_["ex"]["locks"],
+                       "mp_mode": mp_mode, "trace": o_["ex"]["trace"], "problems": o_["problems"]}
+            problems = o_["problems"]
+            if prop_id == "C08":
+                problems = {k_: v for k_, v in problems.items() if "sequential" not in k_}
+            sigs = []
+            nonseq = [p_ for p_ in problems if "sequential" in p_]
+            if nonseq:
+                if o_["tags"] == ["other"] or not o_["tags"]:
+                    sigs.append("%s:unexplained:%s:%s:%s" % (prop_id.lower(), o_["sn"], o_["short"], o_["rc"]))
+                else:
+                    sigs += ["%s:%s" % (prop_id.lower(), t) for t in o_["tags"]]
+            for p_ in problems:
+                if "sequential" not in p_:
+                    sigs.append("%s:%s:%s:%s" % (prop_id.lower(), p_.split(" (")[0], o_["sn"], o_["short"]))
+            for sig in sigs:
+                if sig not in seen:
+                    seen.add(sig)
+                    report.findings.append(Finding(prop_id, sig, "%s from state %s under schedule %s: results %s: %s" % (
+                        o_["short"], o_["sn"], "".join(map(str, o_["ex"]["schedule"]))[:60], o_["rc"], "; ".join(problems)), payload))
+            if o_["dis"]:
+                sig = "%s-dis:%s:%s" % (prop_id.lower(), o_["short"], ",".join(sorted(o_["dis"])))
+                if sig not in seen and len(report.disagreements) < 10:
+                    seen.add(sig)
+                    from . import framework
+                    payload2 = dict(payload)
+                    payload2["disagreement"] = o_["dis"]
+                    pth = framework.write_replay(prop_id, "disagreement", payload2)
+                    report.disagreements.append({"what": "%s from %s under schedule %s: %s" % (o_["short"], o_["sn"], o_["ex"]["schedule"][:40], "; ".join(
+                        "%s model %s code %s" % (k_, v[0][:150], v[1][:150]) for k_, v in o_["dis"].items())), "replay": pth})
+    return len(combos)
+
+
 def replay_chooser(schedule):
     it = iter(schedule)
 
@@ -201,8 +312,7 @@ def diagnose(calls, results, abs_lines):
     for i, c in enumerate(calls):
         r = results[i] or "pending"
         others = [calls[j] for j in range(n) if j != i]
-        if c.name == "store_object" and r == IN_PROGRESS and not any(o.name == "store_object" and pid(o) == pid(c) for o in others) \
-                and any(o.name == "delete_object" and pid(o) == pid(c) for o in others):
+        if c.name == "store_object" and r == IN_PROGRESS and any(o.name == "delete_object" and pid(o) == pid(c) for o in others):
             tags.append("store-rejected-as-in-progress-while-pid-is-being-deleted")
         if c.name in ("store_object", "tag_object") and r.startswith(VERIFY_ERRS) and any(o.name == "delete_object" and pid(o) == pid(c) for o in others):
             tags.append("tag-verification-fails-against-concurrent-delete-of-same-pid")
@@ -245,6 +355,8 @@ def run(prop_id, tier, seed, report, mp_mode=False):
     stats = {"execs": 0, "distinct": set(), "outcomes": {}, "blocked": 0}
     samples = []
     seen = set()
+    n_combos = systematic(prop_id, tier, rng, mp_mode, [0] * (prop_id in ("C07", "C08", "C16")) + [1] * (prop_id in ("C12", "C08", "C16")),
+                          report, seen, stats)
     model = lean.Model(contents, **cfg)
     try:
         work = []
@@ -324,12 +436,15 @@ def run(prop_id, tier, seed, report, mp_mode=False):
             "rule": "pairs and triples of calls from the property's menu, from several start states, each executed by "
                     "real threads on the real store under a controlled scheduler (scheduling points: every mutating "
                     "file-system primitive, every open for writing, every lock-list critical section, condition waits); "
-                    "random schedules with varying stickiness plus the scripted windows of the known findings; the "
+                    "systematic single-cut schedules (one thread runs k steps, the other runs to completion, the "
+                    "first finishes; every k, both orders) for sampled (quick) or all (thorough) start-state x pair "
+                    "combinations, random schedules with varying stickiness, and the scripted windows of the known findings; the "
                     "real schedule is replayed on the Lean interleaving model (results, final state must agree); "
                     "outcomes are judged against all sequential orders on the Lean specification; distinct = "
                     "(start state, call set, result classes)",
             "samples": samples, "traces_validated_against_impl": stats["execs"], "distribution": stats["outcomes"],
-            "blocked_acquire_attempts": stats["blocked"], "mp_mode": mp_mode, "exhaustive": False}
+            "blocked_acquire_attempts": stats["blocked"], "mp_mode": mp_mode, "systematic_combinations": n_combos,
+            "exhaustive": False}
 
 
 def known_windows(prop_id, menu):
